@@ -282,6 +282,59 @@ func runC12(r *Rng, n int, tier string) {
 		"kotlin-no-pkg":   {"sqlc.json": `{"version":"2","sql":[{"engine":"postgresql","schema":"s.sql","queries":"q.sql","gen":{"kotlin":{"out":"kt"}}}]}`},
 		"bad-override":    {"sqlc.json": `{"version":"1","packages":[{"path":"db","schema":"s.sql","queries":"q.sql","overrides":[{"go_type":"x.Y"}]}]}`},
 	}
+	// every placement of one configuration fault in an entry with one, two or three gen targets, in the first or
+	// the second entry of the `sql` list (version 2), and in the first or second package (version 1)
+	type tgt struct{ lang, good string; faults map[string]string }
+	tgts := []tgt{
+		{"go", `"go":{"package":"db","out":"db"}`, map[string]string{
+			"no-out":        `"go":{"package":"db"}`,
+			"override-both": `"go":{"package":"db","out":"db","overrides":[{"column":"t.id","db_type":"int4","go_type":"x.Y"}]}`,
+			"override-none": `"go":{"package":"db","out":"db","overrides":[{"go_type":"x.Y"}]}`}},
+		{"kotlin", `"kotlin":{"package":"com.example.t","out":"kt"}`, map[string]string{
+			"no-out":     `"kotlin":{"package":"com.example.t"}`,
+			"no-package": `"kotlin":{"out":"kt"}`}},
+		{"python", `"python":{"package":"t","out":"py"}`, map[string]string{
+			"override-both": `"python":{"package":"t","out":"py","overrides":[{"column":"t.id","db_type":"int4","py_type":"x.Y"}]}`,
+			"override-none": `"python":{"package":"t","out":"py","overrides":[{"py_type":"x.Y"}]}`}},
+	}
+	goodEntry := `{"engine":"postgresql","schema":"s.sql","queries":"q.sql","gen":{"go":{"package":"first","out":"first"}}}`
+	for mask := 1; mask < 8; mask++ {
+		for fi, ft := range tgts {
+			if mask&(1<<uint(fi)) == 0 {
+				continue
+			}
+			for _, fk := range sortedKeys(ft.faults) {
+				var parts []string
+				for ti, t := range tgts {
+					if mask&(1<<uint(ti)) == 0 {
+						continue
+					}
+					if ti == fi {
+						parts = append(parts, ft.faults[fk])
+					} else {
+						parts = append(parts, t.good)
+					}
+				}
+				entry := `{"engine":"postgresql","schema":"s.sql","queries":"q.sql","gen":{` + strings.Join(parts, ",") + `}}`
+				bad[fmt.Sprintf("targets%d-%s-%s-first", mask, ft.lang, fk)] = map[string]string{"sqlc.json": `{"version":"2","sql":[` + entry + `]}`}
+				bad[fmt.Sprintf("targets%d-%s-%s-second", mask, ft.lang, fk)] = map[string]string{"sqlc.json": `{"version":"2","sql":[` + goodEntry + `,` + entry + `]}`}
+			}
+		}
+	}
+	goodPkg := `{"name":"first","path":"first","schema":"s.sql","queries":"q.sql"}`
+	for _, kv := range [][2]string{
+		{"no-path", `{"name":"db","schema":"s.sql","queries":"q.sql"}`},
+		{"override-both", `{"path":"db","schema":"s.sql","queries":"q.sql","overrides":[{"column":"t.id","db_type":"int4","go_type":"x.Y"}]}`},
+		{"override-none", `{"path":"db","schema":"s.sql","queries":"q.sql","overrides":[{"go_type":"x.Y"}]}`},
+		{"unknown-engine", `{"path":"db","engine":"oracle","schema":"s.sql","queries":"q.sql"}`},
+	} {
+		bad["v1-"+kv[0]+"-first"] = map[string]string{"sqlc.json": `{"version":"1","packages":[` + kv[1] + `,` + goodPkg + `]}`}
+		bad["v1-"+kv[0]+"-second"] = map[string]string{"sqlc.json": `{"version":"1","packages":[` + goodPkg + `,` + kv[1] + `]}`}
+	}
+	bad["v2-unknown-engine-second"] = map[string]string{"sqlc.json": `{"version":"2","sql":[` + goodEntry + `,{"engine":"oracle","schema":"s.sql","queries":"q.sql","gen":{"go":{"package":"db","out":"db"}}}]}`}
+	bad["v2-missing-engine-second"] = map[string]string{"sqlc.json": `{"version":"2","sql":[` + goodEntry + `,{"schema":"s.sql","queries":"q.sql","gen":{"go":{"package":"db","out":"db"}}}]}`}
+	bad["v2-global-override-both"] = map[string]string{"sqlc.json": `{"version":"2","overrides":{"go":{"overrides":[{"column":"t.id","db_type":"int4","go_type":"x.Y"}]}},"sql":[` + goodEntry + `]}`}
+	bad["v1-global-override-none"] = map[string]string{"sqlc.json": `{"version":"1","overrides":[{"go_type":"x.Y"}],"packages":[` + goodPkg + `]}`}
 	var names []string
 	for k := range bad {
 		names = append(names, k)
